@@ -46,7 +46,28 @@ func VerifHarness_Step_MarketCancelSellOrder() {
 
 func VerifHarness_Step_MarketBuyDirect() {
 	req := &types.MsgBuyDirect{}
-	runStep(req, func(k Keeper, ctx context.Context) error { _, err := k.BuyDirect(ctx, req); return err }, nil)
+	runStep(req, func(k Keeper, ctx context.Context) error { _, err := k.BuyDirect(ctx, req); return err },
+		func(s *zzinv.Step) {
+			// C03 exception: the seller of a filled order loses exactly the purchased quantity
+			// from escrow (and nothing from tradable); everybody else loses nothing
+			s.SkipC03 = true
+			a, b := s.Sk.Acct, s.Sk.Batch
+			zz.Assume(zz.Not(zz.BytesEq(a, s.Signer)))
+			zz.Assume(zz.Not(zz.IsModuleAccount(a)))
+			da := zzinv.DeltaAccount(a, b)
+			filled := zz.QInt(0)
+			if s.Err == nil {
+				for _, o := range req.Orders {
+					var so marketapi.SellOrder
+					found := zz.OrmRow0(zzinv.TSellOrder, &so, o.SellOrderId)
+					mine := zz.And(found, zz.And(zz.BytesEq(so.Seller, a), so.BatchKey == b))
+					filled = zz.QAdd(filled, zz.QIf(mine, zz.QParse(o.Quantity), zz.QInt(0)))
+				}
+			}
+			zz.Assert(zz.QLe(zz.QInt(0), da.Tradable), "C03 BuyDirect never reduces a non-signer's tradable credits")
+			zz.Assert(zz.QEq(da.Escrowed, zz.QNeg(filled)), "C03 BuyDirect reduces a seller's escrow by exactly the quantities bought from their orders")
+			zz.Assert(zz.QLe(zz.BankBal0(a, s.Sk.Denom), zz.BankBal1(a, s.Sk.Denom)), "C03 BuyDirect never reduces a non-signer's coins")
+		})
 }
 
 func VerifHarness_Step_MarketAddAllowedDenom() {
